@@ -449,8 +449,8 @@ func (c *Check) keyLayoutsRule(rule string, rels []string, minScoped, minKind in
 	// a layout that could not be decided is reported as such; only an otherwise clean run can have lost instances
 	undecided := false
 	for _, o := range c.Obs {
-		if !o.OK && !o.Info && strings.Contains(o.Instance, "key layout is decidable") {
-			undecided = true
+		if !o.OK && !o.Info && strings.HasSuffix(o.Rule, "-"+rule) {
+			undecided = true // a reported violation of this rule takes precedence over the instance floor
 		}
 	}
 	if !undecided && (nscoped < minScoped || nkind < minKind) {
